@@ -65,6 +65,10 @@ use self::{
 pub mod reporting;
 mod store;
 mod task;
+#[cfg(feature = "verif-hooks")]
+pub mod verif_task {
+    pub use super::task::verif_links::*;
+}
 #[cfg(test)]
 mod tests;
 
